@@ -579,8 +579,8 @@ func oracle(sc *scenario, root string, i int, ob *stepObs, st *Stats, write, all
 				ownOnly = ownOnly && own[d]
 			}
 			if ob.failedEarly && write && !stdout && ownOnly {
-				// DESIGN §7-F: the known defect (its own failure kind)
-				failKnown("failed-rebuild-deleted-files", tagged("failed-rebuild-deletes-previous-outputs"), diff, "a build that reports errors leaves the tree unchanged")
+				// DESIGN §7-F, repaired by /repo commit d19e8cb: must not come back
+				st.Fail("failed-rebuild-deleted-files", tagged("failed-rebuild-deletes-previous-outputs"), diff, "a build that reports errors leaves the tree unchanged")
 			} else {
 				st.Fail("failed-or-nonwriting-build-deleted-foreign-files", in(), diff, "no file deleted")
 			}
@@ -980,8 +980,8 @@ func genCollision(r *Rng, idx int) *scenario {
 // deterministic scenarios for the findings and for the CLI
 func fixedScenarios() []*scenario {
 	var out []*scenario
-	// DESIGN §7-F
-	f := &scenario{kind: "finding-F", useCtx: true, files: map[string]string{"/src/a.js": "console.log(1)\n", "/src/old.js": "console.log(2)\n"},
+	// DESIGN §7-F (repaired by d19e8cb): the witness histories stay in the corpus and must pass
+	f := &scenario{kind: "fixed-F-corpus", useCtx: true, files: map[string]string{"/src/a.js": "console.log(1)\n", "/src/old.js": "console.log(2)\n"},
 		desc: "ctx entries src/a.js src/old.js outdir=out bundle write=true"}
 	f.opts = func(string) api.BuildOptions {
 		return api.BuildOptions{EntryPoints: []string{"src/a.js", "src/old.js"}, Outdir: "out", Bundle: true, Write: true}
@@ -989,7 +989,7 @@ func fixedScenarios() []*scenario {
 	f.steps = []stepSpec{{label: "build"}, {label: "import-previous-output", edits: []edit{{"/src/a.js", sp("import '../out/old.js'\n")}}},
 		{label: "fix-all", edits: []edit{{"/src/a.js", sp("console.log(3)\n")}}}}
 	out = append(out, f)
-	f2 := &scenario{kind: "finding-F", useCtx: true, files: map[string]string{"/src/a.js": "console.log(1)\n"},
+	f2 := &scenario{kind: "fixed-F-corpus", useCtx: true, files: map[string]string{"/src/a.js": "console.log(1)\n"},
 		desc: "ctx entry src/a.js outdir=out write=true"}
 	f2.opts = func(string) api.BuildOptions {
 		return api.BuildOptions{EntryPoints: []string{"src/a.js"}, Outdir: "out", Write: true}
